@@ -40,7 +40,16 @@ FRAGS = ["<", ">", "&", "\"", "'", "<script>alert(1)</script>", "</TT><script>",
          "\xef\xbc\x86lt;", "\xef\xbc\x9c\xef\xbc\x8fa\xef\xbc\x9e",
          # text that a regular-expression replacement template, a %-format or str.format would expand
          "\\074script\\076", "\\042\\076", "\\g<0>", "\\1", "\\n", "\\d", "%s", "%(x)s", "{0}", "{x}"]
-payload_st = st.lists(st.sampled_from(FRAGS), min_size=1, max_size=4).map("".join)
+# one payload in four is built the way an injection is: the terminator of some context (a CDATA section, a comment, a title,
+# a script, an attribute value ...) followed by an element
+TERMINATORS = ["]]>", "-->", "</title>", "</TITLE>", "</script>", "</style>", "</textarea>", "</p>", "</a>", "</TT>", "</PRE>", "\">", "'>", ">"]
+payload_st = st.one_of(
+    st.lists(st.sampled_from(FRAGS), min_size=1, max_size=4).map("".join),
+    st.lists(st.sampled_from(FRAGS), min_size=1, max_size=4).map("".join),
+    st.lists(st.sampled_from(FRAGS), min_size=1, max_size=4).map("".join),
+    st.builds(lambda t, e, rest: t + e + rest, st.sampled_from(TERMINATORS),
+              st.sampled_from(["<b>", "<a href=\"http://evil/\">x</a>", "<img src=x onerror=alert(1)>", "<script>alert(1)</script>", "<i>x</i>"]),
+              st.sampled_from(["", "", "abc", "<!--", "<![CDATA["])))
 
 
 def _pq(p, enc):
